@@ -2,18 +2,20 @@
 From Coq Require Import Lia.
 Require Import Rapid.Model.Base Rapid.Model.Syntax Rapid.Model.Monad Rapid.Model.Engine Rapid.Model.Shrink.
 Require Import Rapid.Proofs.Signals Rapid.Proofs.EngineProofs.
+Require Import Rapid.Proofs.Glue.
 Local Open Scope nat_scope.
 
 (* For every program, every source, every nesting: if anywhere in the execution of a test case - property
    body, Repeat action or invariant, Custom generator function (kept or rejected attempt), cleanup callback of
-   the outer or of an inner T - user code calls Error/Errorf/Fail or Fatal/Fatalf/FailNow, then the test case
-   neither passes nor counts as invalid: it is a failure (or the model's fuel artefact). *)
+   the outer or of an inner T - user code calls Error/Errorf/Fail, Fatal/Fatalf/FailNow, or panics (any kind of
+   signal), then the test case neither passes nor counts as invalid: it is a failure (or the model's fuel
+   artefact) - whatever happens afterwards, including a Skip by the property or by a cleanup function. *)
 Theorem C02_signal_fails_case :
   forall geom LF lvl p x k mm id,
     let o := checkOnce geom LF lvl p (start x) in
-    In (USignal k mm id) (tr (w o)) -> k <> KPanic ->
+    In (USignal k mm id) (tr (w o)) ->
     ~ ((exists u, res o = Ok u) \/ (exists m, res o = Err (XInvalid m))).
-Proof. exact signal_fails_case. Qed.
+Proof. exact signal_fails_case_any. Qed.
 Print Assumptions C02_signal_fails_case.
 
 (* the flag behind it: failed is sticky on every T and every such signal sets it (also forwarded from an
@@ -39,10 +41,5 @@ Theorem C02_error_fails_TB :
   forall geom LF lvl p files checks nofailfile early seed cands clock,
     (forall u, dc_err1 (doCheck geom LF lvl p files checks early seed cands clock) <> Ok u) ->
     tb_failed (checkTB geom LF lvl p files checks nofailfile early seed cands clock) = true.
-Proof.
-  intros geom LF lvl p files checks nofailfile early seed cands clock H. unfold checkTB.
-  destruct (dc_err1 (doCheck geom LF lvl p files checks early seed cands clock)) as [u|e] eqn:E1.
-  - exfalso. eapply H. reflexivity.
-  - reflexivity.
-Qed.
+Proof. exact C02_error_fails_TB_glue. Qed.
 Print Assumptions C02_error_fails_TB.
